@@ -31,6 +31,12 @@ func (env *Env) call(e *spec.Call) Value {
 		}
 	}
 	switch name {
+	case "calls", "ncalls", "emitted", "arg", "ret", "before", "nevents":
+		if env.atCallSite {
+			panic(traceAtCallSite{})
+		}
+	}
+	switch name {
 	case "old":
 		argc(1)
 		if env.old == nil {
@@ -595,6 +601,8 @@ func (x *exec) resolveCalleeName(pkgPath, s string) string {
 		// maybe a variable holding a closure
 		if !strings.ContainsAny(s, ".(") {
 			key = "var:" + s
+		} else if !x.e.w.externalKeyPlausible(key) {
+			specErr("function reference %q does not name a function, a method or a contract (resolved to %s)", s, key)
 		}
 	}
 	x.calleeNameCache[pkgPath+"|"+s] = key
